@@ -1518,6 +1518,135 @@ fn gen_tables(src: &Path) -> R<String> {
         let lits = all_str_literals(&f.block);
         writeln!(out, "def Element.graphicsElements : List (List Char) := [{}]\n", lits.iter().map(|s| char_list(s)).collect::<Vec<_>>().join(", ")).unwrap();
     }
+    // ---- C20 additions (append-only): the control skeleton of `Theme::build` and the numeric
+    // literals of the pattern functions, so that the hand-written order in Svgdx/Theme/Build.lean
+    // is re-checked against the source on every run.
+    {
+        // default body of `trait Theme { fn build }`
+        let mut build_block: Option<&Block> = None;
+        for item in &themes.items {
+            if let Item::Trait(t) = item {
+                if t.ident == "Theme" {
+                    for ti in &t.items {
+                        if let syn::TraitItem::Fn(f) = ti {
+                            if f.sig.ident == "build" {
+                                build_block = f.default.as_ref();
+                            }
+                        }
+                    }
+                }
+            }
+        }
+        let build_block = build_block.ok_or("themes.rs: trait Theme has no default fn build")?;
+        // every call / method call / path mentioned whose name starts with `append_` or `d_`, in source order
+        struct Calls(Vec<String>);
+        impl<'ast> syn::visit::Visit<'ast> for Calls {
+            fn visit_expr_method_call(&mut self, m: &'ast syn::ExprMethodCall) {
+                syn::visit::visit_expr(self, &m.receiver);
+                let n = m.method.to_string();
+                if n.starts_with("append_") {
+                    self.0.push(n);
+                }
+                for a in &m.args {
+                    syn::visit::visit_expr(self, a);
+                }
+            }
+            fn visit_expr_path(&mut self, p: &'ast syn::ExprPath) {
+                if let Some(last) = p.path.segments.last() {
+                    let n = last.ident.to_string();
+                    if n.starts_with("append_") || n.starts_with("d_") {
+                        self.0.push(n);
+                    }
+                }
+            }
+        }
+        let mut calls = Calls(vec![]);
+        syn::visit::Visit::visit_block(&mut calls, build_block);
+        writeln!(out, "def Theme.build_order : List (List Char) := [").unwrap();
+        for (i, c) in calls.0.iter().enumerate() {
+            writeln!(out, "  {}{}", if i == 0 { "" } else { ", " }, char_list(c)).unwrap();
+        }
+        out.push_str("]\n\n");
+        // (class, builder fn) arrays of `build` (the shadow table)
+        let arrays = tuple_arrays(build_block);
+        writeln!(out, "def Theme.build_table : List (List Char × List Char) := [").unwrap();
+        let mut first = true;
+        for rows in &arrays {
+            for row in rows {
+                let Some(k) = row.first().and_then(lit_str) else { continue };
+                // second column: the first path identifier mentioned (`&d_softshadow as &Tfn` -> d_softshadow)
+                let mut c2 = Calls(vec![]);
+                for e in &row[1..] {
+                    syn::visit::Visit::visit_expr(&mut c2, e);
+                }
+                let v = c2.0.first().cloned().unwrap_or_default();
+                writeln!(out, "  {}({}, {})", if first { "" } else { ", " }, char_list(&k), char_list(&v)).unwrap();
+                first = false;
+            }
+        }
+        out.push_str("]\n\n");
+        let lits = all_str_literals(build_block);
+        writeln!(out, "def Theme.build_strings : List (List Char) := [").unwrap();
+        for (i, s) in lits.iter().enumerate() {
+            writeln!(out, "  {}{}", if i == 0 { "" } else { ", " }, char_list(s)).unwrap();
+        }
+        out.push_str("]\n\n");
+        // numeric literals (digits only, sign dropped) of the two pattern functions, in source order
+        struct Nums(Vec<String>);
+        impl<'ast> syn::visit::Visit<'ast> for Nums {
+            fn visit_lit(&mut self, l: &'ast Lit) {
+                match l {
+                    Lit::Int(i) => self.0.push(i.base10_digits().to_string()),
+                    Lit::Float(f) => self.0.push(f.base10_digits().to_string()),
+                    _ => {}
+                }
+            }
+            fn visit_macro(&mut self, _m: &'ast syn::Macro) {}
+        }
+        for fname in ["pattern_defs", "append_pattern_styles"] {
+            let f = find_free_fn(&themes, fname).ok_or(format!("themes.rs: fn {fname} not found"))?;
+            let mut n = Nums(vec![]);
+            syn::visit::Visit::visit_block(&mut n, &f.block);
+            writeln!(out, "def Theme.{fname}_numbers : List (List Char) := [{}]\n", n.0.iter().map(|s| char_list(s)).collect::<Vec<_>>().join(", ")).unwrap();
+        }
+        // which rows of the pattern table draw horizontal / vertical lines / a circle: the `if let` patterns of
+        // pattern_defs, as (variant list, first string literal of the branch)
+        {
+            let f = find_free_fn(&themes, "pattern_defs").ok_or("themes.rs: fn pattern_defs not found")?;
+            writeln!(out, "def Theme.pattern_defs_branches : List (List (List Char) × List Char) := [").unwrap();
+            let mut first = true;
+            for st in &f.block.stmts {
+                if let Stmt::Expr(Expr::If(i), _) = st {
+                    if let Expr::Let(l) = &*i.cond {
+                        // only `if let PatternType::A | PatternType::B = direction`
+                        let mut vars = vec![];
+                        fn collect(p: &Pat, out: &mut Vec<String>) {
+                            match p {
+                                Pat::Or(o) => o.cases.iter().for_each(|c| collect(c, out)),
+                                Pat::Path(pp) => {
+                                    if let Some(s) = pp.path.segments.last() {
+                                        out.push(s.ident.to_string());
+                                    }
+                                }
+                                Pat::Ident(pi) => out.push(pi.ident.to_string()),
+                                _ => {}
+                            }
+                        }
+                        collect(&l.pat, &mut vars);
+                        let is_direction = matches!(&*l.expr, Expr::Path(p) if p.path.is_ident("direction"));
+                        if is_direction && !vars.is_empty() {
+                            let lits = all_str_literals(&i.then_branch);
+                            let tpl = lits.iter().find(|s| s.contains('<')).cloned().unwrap_or_default();
+                            writeln!(out, "  {}([{}], {})", if first { "" } else { ", " },
+                                vars.iter().map(|v| char_list(v)).collect::<Vec<_>>().join(", "), char_list(&tpl)).unwrap();
+                            first = false;
+                        }
+                    }
+                }
+            }
+            out.push_str("]\n\n");
+        }
+    }
     out.push_str("end Svgdx.Gen\n");
     Ok(out)
 }
